@@ -184,6 +184,11 @@ def derive_cases(tier):
         yield {'f': 'derive', 'kn': 'text', 'iid': 'str', 'subj': 'ec256_1', 'iss': iss, 'start': STARTS[3], 'dur': 3600, 'it': 0, 'text': True}
     for f in ('self', 'req'):
         yield {'f': f, 'kn': 'text', 'subj': 'ec256_1', 'iss': 'ed', 'now': '2024-02-29T12:00:00+00:00', 'it': 0, 'text': True}
+    # F: the key name given in the other documented forms (generator of components, tuple, URI text, encoded name)
+    for form in ('gen', 'tuple', 'uri', 'wire'):
+        yield {'f': 'derive', 'kn': 'ident1-id1', 'iid': 'str', 'subj': 'ec256_1', 'iss': 'ed', 'start': STARTS[3], 'dur': 3600, 'it': 0, 'form': form}
+        for f in ('self', 'req'):
+            yield {'f': f, 'kn': 'ident1-id1', 'subj': 'ec256_1', 'iss': 'ed', 'now': '2024-02-29T12:00:00+00:00', 'it': 0, 'form': form}
     # R: one signer object issuing two certificates, its (public) key_locator_name attribute reassigned in between
     for iss in ISSUERS:
         for subj in ('ec256_1', 'rsa2048_1'):
@@ -212,6 +217,19 @@ def run_case(case):
                 os.environ['TZ'] = old_tz
             _t.tzset()
     return run_case_inner(case)
+
+
+def given_form(case, comps):
+    form = case.get('form')
+    if form == 'gen':
+        return (bytes(c) for c in list(comps))
+    if form == 'tuple':
+        return tuple(bytes(c) for c in comps)
+    if form == 'uri':
+        return enc.Name.to_str([bytes(c) for c in comps])
+    if form == 'wire':
+        return ts.tlv(7, b''.join(bytes(c) for c in comps))
+    return list(comps)
 
 
 def run_case_inner(case):
@@ -258,7 +276,7 @@ def run_case_inner(case):
                 if case.get('aware'):
                     start = start.replace(tzinfo=dt.timezone.utc)
                 try:
-                    name, wire = sv2.derive_cert(list(kn_given or kn), iid if isinstance(iid, str) else bytearray(iid), pub, signer, start, case['dur'])
+                    name, wire = sv2.derive_cert(given_form(case, kn_given or kn), iid if isinstance(iid, str) else bytearray(iid), pub, signer, start, case['dur'])
                 except Exception as e:  # noqa
                     return [(f'C16|derive|raises:{type(e).__name__}@{tb_where(e)}', f'{e!r}; case {case}')], None
                 nb, na = start, start + dt.timedelta(seconds=case['dur'])
@@ -266,12 +284,12 @@ def run_case_inner(case):
                 with fixed_now(case['now']) as now:
                     try:
                         if case['f'] == 'self':
-                            name, wire = sv2.self_sign(list(kn_given or kn), pub, signer)
+                            name, wire = sv2.self_sign(given_form(case, kn_given or kn), pub, signer)
                             issuer_comp = ts.tlv(8, b'self')
                             nb = dt.datetime(1970, 1, 1)
                             na = now.replace(year=now.year + 20)
                         else:
-                            name, wire = sv2.sign_req(list(kn_given or kn), pub, signer)
+                            name, wire = sv2.sign_req(given_form(case, kn_given or kn), pub, signer)
                             issuer_comp = ts.tlv(8, b'cert-request')
                             nb, na = now, now + dt.timedelta(days=10)
                     except Exception as e:  # noqa
